@@ -242,7 +242,7 @@ func checkC11(sc *Scenario, res *RunResult, t *Truth) []Violation {
 			if p.LogLocation == "" && sc.Project.LogLocation == "" {
 				continue
 			}
-			if strings.HasPrefix(p.LogLocation, "blocker/") {
+			if strings.HasPrefix(p.LogLocation, "blocker/") || p.LogLocation == "/dev/full" {
 				continue // (that file cannot exist)
 			}
 			got := fileLines[rep]
